@@ -1200,3 +1200,63 @@ Proof.
   destruct v as [i v]. intro H. apply union_store_first in H. destruct H as [m [Hn [Hs _]]].
   exists m. split; [exact Hn|]. eapply m_store_val_ok. exact Hs.
 Qed.
+
+(* ====================================================================================== *)
+(* ipv4-prefix host bits                                                                   *)
+(* ====================================================================================== *)
+Definition ip4_mask_check (l : N) : bool := ip4_mask l =? N.shiftl (N.ones l) (32 - l).
+Lemma ip4_mask_all : N_all_below 33 ip4_mask_check = true.
+Proof. vm_compute. reflexivity. Qed.
+
+Lemma ip4_mask_shift l : l <= 32 -> ip4_mask l = N.shiftl (N.ones l) (32 - l).
+Proof.
+  intro H. apply N.eqb_eq. apply (N_all_below_spec 33 ip4_mask_check ip4_mask_all l). lia.
+Qed.
+
+(* the mask has exactly the [l] most significant of the 32 bits set *)
+Lemma ip4_mask_bits l i : l <= 32 -> N.testbit (ip4_mask l) i = (32 - l <=? i) && (i <? 32).
+Proof.
+  intro H. rewrite (ip4_mask_shift l H).
+  destruct (32 - l <=? i) eqn:Hi; cbn [andb].
+  - apply N.leb_le in Hi. rewrite N.shiftl_spec_high' by exact Hi.
+    destruct (i <? 32) eqn:H32.
+    + apply N.ones_spec_low. apply N.ltb_lt in H32. lia.
+    + apply N.ones_spec_high. apply N.ltb_ge in H32. lia.
+  - apply N.leb_gt in Hi. apply N.shiftl_spec_low. exact Hi.
+Qed.
+
+Theorem ip4_zero_host_bits a l i :
+  l <= 32 -> N.testbit (ip4_zero_host a l) i = N.testbit a i && (32 - l <=? i) && (i <? 32).
+Proof. intro H. unfold ip4_zero_host. rewrite N.land_spec, (ip4_mask_bits l i H), andb_assoc. reflexivity. Qed.
+
+Theorem ip4_zero_host_idempotent a l : ip4_zero_host (ip4_zero_host a l) l = ip4_zero_host a l.
+Proof. unfold ip4_zero_host. rewrite <- N.land_assoc, N.land_diag. reflexivity. Qed.
+
+(* two prefixes of the same length are stored as equal values exactly when the addresses agree on the network bits *)
+Theorem ip4p_eq_iff_network a b l :
+  l <= 32 -> a < 4294967296 -> b < 4294967296 ->
+  (ip4p_compare (ip4p_store a l) (ip4p_store b l) = true <->
+   forall i, 32 - l <= i -> i < 32 -> N.testbit a i = N.testbit b i).
+Proof.
+  intros Hl Ha Hb. unfold ip4p_compare, ip4p_store. cbn [fst snd]. rewrite N.eqb_refl, andb_true_r, N.eqb_eq. split.
+  - intros H i H1 H2. assert (E : N.testbit (ip4_zero_host a l) i = N.testbit (ip4_zero_host b l) i) by (rewrite H; reflexivity).
+    rewrite !ip4_zero_host_bits in E by exact Hl.
+    assert (E1 : (32 - l <=? i) = true) by (apply N.leb_le; exact H1). assert (E2 : (i <? 32) = true) by (apply N.ltb_lt; exact H2).
+    rewrite E1, E2, !andb_true_r in E. exact E.
+  - intro H. apply N.bits_inj_iff. intro i. rewrite !ip4_zero_host_bits by exact Hl.
+    destruct (32 - l <=? i) eqn:E1; [|rewrite !andb_false_r; reflexivity].
+    destruct (i <? 32) eqn:E2; [|rewrite !andb_false_r; reflexivity].
+    rewrite !andb_true_r. apply H; [apply N.leb_le; exact E1|apply N.ltb_lt; exact E2].
+Qed.
+
+(* prefix length 0 stores the address 0, prefix length 32 keeps every address bit *)
+Theorem ip4_zero_host_ends a : a < 4294967296 -> ip4_zero_host a 0 = 0 /\ ip4_zero_host a 32 = a.
+Proof.
+  intro Ha. split; apply N.bits_inj_iff; intro i; rewrite ip4_zero_host_bits by lia.
+  - rewrite N.bits_0. destruct (N.testbit a i); cbn [andb]; [|reflexivity].
+    destruct (32 - 0 <=? i) eqn:E1; destruct (i <? 32) eqn:E2; try reflexivity. apply N.leb_le in E1. apply N.ltb_lt in E2. lia.
+  - replace (32 - 32) with 0 by reflexivity. assert (E : (0 <=? i) = true) by (apply N.leb_le; lia). rewrite E, andb_true_r.
+    destruct (i <? 32) eqn:E2; [apply andb_true_r|]. rewrite andb_false_r. apply N.ltb_ge in E2.
+    symmetry. destruct (N.eq_dec a 0) as [->|Hn]; [apply N.bits_0|]. apply N.bits_above_log2.
+    assert (N.log2 a < 32) by (apply N.log2_lt_pow2; lia). lia.
+Qed.
